@@ -4,7 +4,7 @@
 From Coq Require Extraction.
 From Coq Require Import ExtrOcamlBasic.
 From TV Require Import Prelude.Str Prelude.PosixPath Prelude.Utf8 Prelude.UnicodeTables
-  Codec.Quote Codec.DateFmt Codec.TrashInfo Logic.OrigLoc.
+  Codec.Quote Codec.DateFmt Codec.TrashInfo Logic.OrigLoc Logic.Glob Logic.PyInt Logic.Indexes Logic.Scope Logic.Reply Logic.Calendar.
 Extraction "../driver/model.ml"
   str_eqb split_on dec_of_Z
   basename dirname join2 normpath abspath
@@ -13,4 +13,5 @@ Extraction "../driver/model.ml"
   format_date strptime_body uni_digit
   format_trashinfo read_text parse_path date_of parse_deletion_date maybe_parse_deletion_date
   parse_original_location
-  calc_parent_path orig_loc_parent_arg orig_loc_result.
+  calc_parent_path orig_loc_parent_arg orig_loc_result
+  fnmatchcase py_int parse_indexes matches_path restore_scope parse_reply parse_user_reply older_than dt_lt micros.
